@@ -78,7 +78,7 @@ theorem C03_server_body_wellformed (cd : Codec α) (cfg : EncCfg) (hs : cfg.serv
     intro m _
     simp [flagByte]; cases cfg.comp <;> simp
 
-/-- **The flag tells the truth about the payload.** -/
+/-- **The flag tells the truth about the payload.** (Transcription lemma: it holds by unfolding the model's definition, so it pins the model's shape for the correspondence run — its assurance about tonic is the tie, not this proof.) -/
 theorem C03_flag_iff_compressed (cd : Codec α) (cfg : EncCfg) (ms : List α) :
     ∀ fp ∈ expectedFrames cd cfg ms, ∃ m ∈ ms,
       (fp.1 = 1 ∧ ∃ e, cfg.comp = some e ∧ fp.2 = cd.cz e (cd.ser m)) ∨
@@ -91,7 +91,27 @@ theorem C03_flag_iff_compressed (cd : Codec α) (cfg : EncCfg) (ms : List α) :
   | none => right; simp [flagByte, Framing.payload, hc]
   | some e => left; simp [flagByte, Framing.payload, hc]
 
-/-- **A client request body carries no trailers**, delivers whole frames of the messages before
+/-- **A client request body carries no trailers — ever**: in whatever state, for every source
+schedule and however often it is polled (also past an error or its end), a client-role body never
+yields a trailers frame.  (`C03_client_body_wellformed` below leaves the polls after an error
+unconstrained; this closes that gap.) -/
+theorem C03_client_body_never_trailers (cd : Codec α) (cfg : EncCfg) (hs : cfg.server = false) (n : Nat) :
+    ∀ (b : BodySt) (evs : List (SrcEv α)) (st : St), FrameOut.trailers st ∉ Enc.run cd cfg n b evs := by
+  have step : ∀ (b : BodySt) (evs : List (SrcEv α)) (st : St),
+      (Enc.pollFrame cd cfg b evs).2.2 ≠ .trailers st := by
+    intro b evs st
+    unfold Enc.pollFrame
+    split
+    · simp
+    · split <;> simp [hs]
+  induction n with
+  | zero => intro b evs st; simp [Enc.run]
+  | succ n ih =>
+    intro b evs st
+    simp only [Enc.run, List.mem_cons, not_or]
+    exact ⟨fun h => step b evs st h.symm, ih _ _ st⟩
+
+/-- **A client request body** delivers whole frames of the messages before
 the first failure, and then ends or fails. -/
 theorem C03_client_body_wellformed (cd : Codec α) (cfg : EncCfg) (hs : cfg.server = false)
     (evs : List (SrcEv α)) (n : Nat) (hn : evs.length + 1 < n) :
@@ -129,7 +149,7 @@ theorem C03_end_stream_only_after_trailers (cd : Codec α) (cfg : EncCfg) (n : N
     ∀ (j : Nat) (o : FrameOut), i ≤ j → (Enc.run cd cfg n Enc.init evs)[j]? = some o → o = FrameOut.none :=
   endFlags_sound cd cfg n Enc.init evs rfl i h
 
-/-- `size_hint()` is sound in every state: its lower bound is 0 and it claims no upper bound. -/
+/-- `size_hint()` is sound in every state: its lower bound is 0 and it claims no upper bound. (Transcription lemma: it holds by unfolding the model's definition, so it pins the model's shape for the correspondence run — its assurance about tonic is the tie, not this proof.) -/
 theorem C03_size_hint_sound (b : BodySt) : Enc.sizeHint b = (0, none) := rfl
 
 /-- **An `Encoder::encode` failure at any position** (outcome "encode failure" of the property):
@@ -269,7 +289,7 @@ theorem C03_recovered_error_carries_status {ρ ε : Type} (chain : ε → List L
     by simp [recoverError, h, hH], hm, hd, hk⟩
 
 /-- **A response of the inner service passes through `RecoverError` unchanged** (status, version,
-headers, extensions; the body is wrapped and delegates every poll). -/
+headers, extensions; the body is wrapped and delegates every poll). (Transcription lemma: it holds by unfolding the model's definition, so it pins the model's shape for the correspondence run — its assurance about tonic is the tie, not this proof.) -/
 theorem C03_recover_ok_passthrough {ρ ε : Type} (chain : ε → List Link) (res : Response ρ)
     (inner : ρ → Nat → List Fr) (extra : Nat) :
     ∃ r, recoverError (ε := ε) chain (.ok res) = .response r ∧
